@@ -60,6 +60,15 @@ CLAIMS = {
              "price machine; cash() of every criterion (closed forms and the default search, incl. user subclasses, constants, multi-column, target) is compared with the exact "
              "certainty equivalent and with the property's own relations; Hedger.price/compute_loss are compared with the machine's exact price on scripted draws.",
         note="Trusted: TLC, torch, ScriptedPrimary double. Default-search amounts within the documented precision 1e-6."),
+    "C08": dict(
+        engine="AutoGreek.tla / TLC -> replay with generated pricers",
+        technique="TLA+ dataflow machine of pfhedge.autogreek (ParseLeaf priority, Rederive, Filter, Differentiate) with second-order rational jets of polynomial pricers, checked by TLC against exact central differences; replay into autogreek and module default Greeks",
+        category=MC, design_ref="DESIGN.md 3 C08, 4",
+        text="PARTIAL: decides the automatic Greeks. AutoGreek.tla models which spelling is the differentiation leaf, which dependent spellings are recomputed from it and which arguments reach the pricer, per Greek, "
+             "and evaluates polynomial pricers over exact second-order jets; TLC checks PricerCallable, TotalDerivative and JetEqualsCentralDifference for all pricer signatures x caller spellings x points; real pricers with those "
+             "signatures are generated and autogreek.delta/gamma/vega/theta and the BSModuleMixin defaults compared with the jets, also with junk lower-priority spellings. "
+             "Equality of the closed-form bs_* Greeks with derivatives of the closed-form prices is NOT decided (differential calculus over erf/exp has no exact finite model).",
+        note="Trusted: TLC, torch.autograd on polynomials. log-moneyness pricers evaluated at S=K only. The European-binary gamma/vega/theta (v*t^2) defect named in the property lies in the undecided part."),
     "C10": dict(
         engine="Sim.tla / TLC -> path-wise replay with supplied normals",
         technique="TLA+ scheme machines (one Step(z) per time step, exact coefficient/rational domains) checked by TLC against closed forms for every sequence of supplied normals; real generators replayed on exactly those normals",
